@@ -160,7 +160,8 @@ def generate(seed, tier, batch):
         kinds = ["hom", "hom", "het"] + (["thr"] if backend == "bosonic" else [])
         return {"kind": "dyne", "backend": backend, "hbar": hbar, "n": n, "prep": prep, "meas": gen_meas(r, n, kinds),
                 "rejections": r.choice([0, 0, 1, 3, 6]) if backend == "bosonic" else 0, "proposal": r.choice(["target", "peak"]),
-                "native": batch == "native-rng", "tape": seed, "refused_first": backend == "gaussian" and batch != "native-rng" and r.random() < 0.2}
+                "native": batch == "native-rng", "tape": seed, "refused_first": backend == "gaussian" and batch != "native-rng" and r.random() < 0.2,
+                "refused_variant": r.choice(["kw_meas", "stored_gates_select", "kw_gates_select"])}
     if batch == "xsel":
         n = r.randint(2, 4)
         prep = gen_gauss_prep(r, n, r.randint(2, 7))
@@ -175,6 +176,23 @@ def generate(seed, tier, batch):
     if batch == "gauss-count":
         n = r.randint(1, 4)
         prep = gen_gauss_prep(r, n)
+        if r.random() < 0.25:
+            # exact special values: every displacement is along p only (Zgate, Dgate(r, +-pi/2)), squeezing axes and beamsplitters keep it
+            # there - the x means of the state are exactly zero while the state is displaced
+            prep = []
+            for _ in range(r.randint(1, 6)):
+                x = r.random()
+                m = r.randrange(n)
+                if x < 0.3:
+                    prep.append({"op": "Zgate", "p": [rnd(r, -1.2, 1.2)], "m": [m]})
+                elif x < 0.5:
+                    prep.append({"op": "Dgate", "p": [rnd(r, 0.2, 1.0), r.choice([round(math.pi / 2, 12), -round(math.pi / 2, 12)])], "m": [m]})
+                elif x < 0.7:
+                    prep.append({"op": "Sgate", "p": [rnd(r, -0.6, 0.6), r.choice([0.0, round(math.pi, 12)])], "m": [m]})
+                elif x < 0.85 and n > 1:
+                    prep.append({"op": "BSgate", "p": [rnd(r, 0.1, 1.5), 0.0], "m": r.sample(range(n), 2)})
+                else:
+                    prep.append({"op": "LossChannel", "p": [rnd(r, 0.3, 1)], "m": [m]})
         ms = r.sample(range(n), r.randint(1, n))
         kind = r.choice(["fock", "fock", "thr"])
         dark = [rnd(r, 0, 1.5) for _ in ms] if kind == "fock" and r.random() < 0.4 else None
@@ -646,10 +664,22 @@ def run_dyne(script, w, backend, collect=None, shared_prog=None):
             w.step("run_prep", backend=backend)
             eng.run(prep_prog)
             s0 = rm.snapshot(eng.backend.state(), sf.hbar)
-            w.fault("refused_request:multi_shot_dyne")
+            variant = script.get("refused_variant", "kw_meas")
+            w.fault("refused_request:multi_shot_dyne:" + variant)
             refused = False
             try:
-                eng.run(meas_only, shots=3)
+                if variant == "kw_meas":
+                    eng.run(meas_only, shots=3)
+                else:
+                    # gates followed by a post-selected measurement, with several shots: the engine documents that it refuses this
+                    # combination - before anything of the program is executed.  The shot count comes from the call or from the program.
+                    bad = build_program({"ops": [{"op": "Sgate", "p": [0.4, 0.3], "m": [script["meas"][0]["m"]]}, {"op": "Dgate", "p": [0.5, 1.0], "m": [0]},
+                                                 {"op": "MeasureHomodyne", "p": [0.3], "kw": {"select": 0.2}, "m": [script["meas"][0]["m"]]}]}, parent=prep_prog)
+                    if variant == "stored_gates_select":
+                        bad.run_options = {"shots": 3}
+                        eng.run(bad)
+                    else:
+                        eng.run(bad, shots=3)
             except NotImplementedError:
                 refused = True
             except Violation:
